@@ -241,6 +241,11 @@ def rvStep (n : Nat) (w : RVW) (o : List String) : RVW × String :=
       | "init", [l] => match list? l with
         | some l => if l.length ≤ n then fin (RV.ofList n 0 l) else skip
         | none => skip
+      -- the iterator-pair constructor driven with an iterator of the named category (random access, pointer,
+      -- bidirectional, forward, two single-pass input iterators): the abstract result does not depend on it
+      | "initr", [k, l] => match list? l with
+        | some l => if l.length ≤ n && ["ra", "ptr", "bidi", "fwd", "in", "is"].contains k then fin (RV.ofList n 0 l) else skip
+        | none => skip
       | _, _ => skip
     | _ => skip
   | [] => skip
